@@ -1,1 +1,184 @@
-//! (stub)
+//! G-layout: BGZF files assembled block by block by the harness itself (deflate through
+//! `miniz_oxide`, see `oracle::bgzf_walk::build_member`), with empty blocks mid-file, ISIZE = 65536
+//! blocks and the EOF marker present or absent; plus the flat-array + block-table reference model
+//! that C02/C03 compare readers against.
+
+use crate::oracle::bgzf_walk::{self, EOF_MARKER};
+use crate::r#gen::payload::Payload;
+use proptest::prelude::*;
+use serde::{Deserialize, Serialize};
+
+#[derive(Clone, Debug, Serialize, Deserialize, PartialEq)]
+pub struct Layout {
+    /// content of every block (len ≤ 65536 each; 0 = empty block)
+    pub blocks: Vec<Payload>,
+    /// append the 28-byte EOF marker
+    pub eof: bool,
+    /// miniz_oxide level used for the members (0..=9)
+    pub level: u8,
+}
+
+#[derive(Clone, Debug)]
+pub struct Blk {
+    /// compressed offset of the member
+    pub cpos: u64,
+    /// member length
+    pub clen: u64,
+    /// uncompressed offset of the member's first byte
+    pub ustart: u64,
+    /// uncompressed length
+    pub len: u64,
+}
+
+/// The reference model: flat uncompressed array + block table.
+#[derive(Clone, Debug)]
+pub struct Model {
+    pub file: Vec<u8>,
+    pub flat: Vec<u8>,
+    /// every member of the file in order, including empty ones and the EOF marker
+    pub table: Vec<Blk>,
+}
+
+impl Layout {
+    /// Assemble the file. A block that does not fit a member at the requested level is rebuilt at
+    /// level 6 and, if it still does not fit (incompressible data), cut to 65495 bytes — a
+    /// deterministic function of the case.
+    pub fn build(&self) -> Model {
+        let mut file = Vec::new();
+        let mut flat = Vec::new();
+        let mut table = Vec::new();
+        for b in &self.blocks {
+            let mut data = Payload { class: b.class, len: b.len.min(65536), seed: b.seed }.expand();
+            let member = match bgzf_walk::build_member(&data, self.level.min(10)) {
+                Some(m) => m,
+                None => match bgzf_walk::build_member(&data, 6) {
+                    Some(m) => m,
+                    None => {
+                        data.truncate(65495);
+                        match bgzf_walk::build_member(&data, 6) {
+                            Some(m) => m,
+                            None => {
+                                data.truncate(60000);
+                                bgzf_walk::build_member(&data, 6).expect("60000 bytes fit a member")
+                            }
+                        }
+                    }
+                },
+            };
+            table.push(Blk { cpos: file.len() as u64, clen: member.len() as u64, ustart: flat.len() as u64, len: data.len() as u64 });
+            file.extend_from_slice(&member);
+            flat.extend_from_slice(&data);
+        }
+        if self.eof {
+            table.push(Blk { cpos: file.len() as u64, clen: EOF_MARKER.len() as u64, ustart: flat.len() as u64, len: 0 });
+            file.extend_from_slice(&EOF_MARKER);
+        }
+        Model { file, flat, table }
+    }
+}
+
+impl Model {
+    /// Model of an arbitrary well-formed BGZF file, through the independent walker.
+    pub fn from_file(file: &[u8]) -> Result<Model, String> {
+        let members = bgzf_walk::walk(file)?;
+        let table = members.iter().map(|m| Blk { cpos: m.cpos, clen: m.clen as u64, ustart: m.ustart, len: m.data.len() as u64 }).collect();
+        Ok(Model { file: file.to_vec(), flat: bgzf_walk::concat(&members), table })
+    }
+
+    pub fn total(&self) -> u64 {
+        self.flat.len() as u64
+    }
+
+    pub fn file_len(&self) -> u64 {
+        self.file.len() as u64
+    }
+
+    /// Index of the member that starts at compressed offset `cpos`.
+    pub fn block_at(&self, cpos: u64) -> Option<usize> {
+        self.table.binary_search_by(|b| b.cpos.cmp(&cpos)).ok()
+    }
+
+    /// The uncompressed offset a virtual position names: `(c, u)` with `c` the start of a member
+    /// and `u` ≤ its length, or `(file_len, 0)`. `None` when it names no byte boundary.
+    pub fn resolve(&self, c: u64, u: u16) -> Option<u64> {
+        if let Some(i) = self.block_at(c) {
+            let b = &self.table[i];
+            if u as u64 <= b.len { Some(b.ustart + u as u64) } else { None }
+        } else if c == self.file_len() && u == 0 {
+            Some(self.total())
+        } else {
+            None
+        }
+    }
+
+    /// Index of the non-empty block containing uncompressed offset `off` (`None` at the end).
+    pub fn block_of(&self, off: u64) -> Option<usize> {
+        if off >= self.total() {
+            return None;
+        }
+        // last block with ustart <= off that is non-empty
+        let i = self.table.partition_point(|b| b.ustart <= off);
+        (0..i).rev().find(|&j| self.table[j].len > 0 && self.table[j].ustart <= off && off < self.table[j].ustart + self.table[j].len)
+    }
+
+    /// Bytes left in the block that holds `off` (0 at the end of the stream).
+    pub fn rest_of_block(&self, off: u64) -> u64 {
+        match self.block_of(off) {
+            Some(i) => self.table[i].ustart + self.table[i].len - off,
+            None => 0,
+        }
+    }
+
+    pub fn nonempty(&self) -> Vec<usize> {
+        (0..self.table.len()).filter(|&i| self.table[i].len > 0).collect()
+    }
+
+    /// gzi index the way `bgzip -i` defines it: one `(compressed, uncompressed)` pair for every
+    /// member after the first. `drop_terminator`: leave out the record of a final empty member
+    /// (htslib writes that record only when it indexes while reading).
+    pub fn gzi(&self, drop_terminator: bool) -> Vec<(u64, u64)> {
+        let mut v: Vec<(u64, u64)> = self.table.iter().skip(1).map(|b| (b.cpos, b.ustart)).collect();
+        if drop_terminator && self.table.len() > 1 && self.table.last().map(|b| b.len == 0).unwrap_or(false) {
+            v.pop();
+        }
+        v
+    }
+
+    pub fn has_mid_empty(&self) -> bool {
+        // an empty member with a non-empty member somewhere after it
+        let last_nonempty = self.table.iter().rposition(|b| b.len > 0);
+        match last_nonempty {
+            Some(l) => self.table[..l].iter().any(|b| b.len == 0),
+            None => false,
+        }
+    }
+}
+
+fn block_len() -> BoxedStrategy<u32> {
+    prop_oneof![
+        3 => Just(0u32),
+        7 => 1u32..=40,
+        3 => 41u32..=3000,
+        1 => 3001u32..=65000,
+        2 => proptest::sample::select(vec![65279u32, 65280, 65281, 65494, 65495, 65496, 65535, 65536]),
+        1 => Just(65536u32),
+    ]
+    .boxed()
+}
+
+pub fn block() -> BoxedStrategy<Payload> {
+    (0u8..6, block_len(), any::<u32>()).prop_map(|(class, len, seed)| Payload { class, len, seed }).boxed()
+}
+
+/// Small blocks only (cheap cases with many block boundaries).
+pub fn small_block() -> BoxedStrategy<Payload> {
+    (0u8..6, prop_oneof![2 => Just(0u32), 8 => 1u32..=24, 1 => 25u32..=600], any::<u32>()).prop_map(|(class, len, seed)| Payload { class, len, seed }).boxed()
+}
+
+pub fn layout(max_blocks: usize) -> BoxedStrategy<Layout> {
+    let blocks = prop_oneof![
+        4 => proptest::collection::vec(block(), 0..=max_blocks),
+        2 => proptest::collection::vec(small_block(), 0..=max_blocks.max(2) * 2),
+    ];
+    (blocks, prop_oneof![2 => Just(true), 1 => Just(false)], 0u8..=9).prop_map(|(blocks, eof, level)| Layout { blocks, eof, level }).boxed()
+}
